@@ -402,7 +402,8 @@ def run(pid, cfg, a, seed, scratch, t_start):
 
 def write_evidence(pid, cfg, tier, seed, evals, nt, nt_overflow, classes, samples, known_hits, extra,
                    violations, wall, infra_msgs, ntasks, shards_done):
-    os.makedirs(os.path.join(VERIF, "evidence"), exist_ok=True)
+    evdir = os.environ.get("VERIF_EVIDENCE_DIR") or os.path.join(VERIF, "evidence")
+    os.makedirs(evdir, exist_ok=True)
     cov = {
         "evaluations": evals,
         "distinct_nontrivial": len(nt),
@@ -431,7 +432,7 @@ def write_evidence(pid, cfg, tier, seed, evals, nt, nt_overflow, classes, sample
         ev["inconclusive"] = [m.split("\n")[0][:300] for m in infra_msgs]
     if violations:
         ev["violation_signatures"] = [v[0] for v in violations]
-    with open(os.path.join(VERIF, "evidence", pid + ".json"), "w") as f:
+    with open(os.path.join(evdir, pid + ".json"), "w") as f:
         json.dump(ev, f, indent=1)
 
 
